@@ -11,9 +11,10 @@ CHECKS = {
         text="Bounded-exhaustive model checking of the real BooleanOp implementation: every ordered operand pair of the "
              "cell-complex families (every union of faces; two encodings) x 4 operations x applicable trait pairings is "
              "executed and compared face by face with the bitmask reference model; general-position float tables "
-             "(triangles, quadrilaterals, bow-ties read even-odd, holed and two-part operands) and the lattice-triangle "
-             "families against exact even-odd membership at one witness per arrangement face. Exhaustive within the "
-             "listed families, nothing outside them.",
+             "(triangles, quadrilaterals, pentagons, bow-ties read even-odd, holed and two-part operands; a designed 'spike' table "
+             "for crossings found only after a removal) and the lattice-triangle families L2i, L2s, L3i against exact even-odd "
+             "membership at one witness per arrangement face. Hook counters show that each of twelve shortcut paths of the "
+             "implementation is taken. Exhaustive within the listed families, nothing outside them.",
         ref="DESIGN.md 3, 4.1, 5 (C01)",
         technique="bounded-exhaustive enumeration of real code against a reference model (explicit-state, no sampling)"),
     "C02": dict(
@@ -79,7 +80,9 @@ CHECKS = {
     "C10": dict(
         text="Every pair of every complex family is executed in f32 and f64: widened f32 result bit-identical to the f64 result and the "
              "same number of sweep events; the region/structure/provenance/consistency oracles of C01 C02 C04 C05 are evaluated on the "
-             "f32 results; a general-position table rounded to f32 is checked with single-precision tolerance.",
+             "f32 results; a general-position table rounded to f32 and an integer table whose coordinates are exact in f32 but whose "
+             "differences are not are checked with single-precision tolerance; 48 near-collinear apex fans are run end to end "
+             "(f32 bit-identical to f64; failing members of the unchanged tree listed as known findings N3).",
         ref="DESIGN.md 5 (C10)",
         technique="bounded-exhaustive enumeration over inputs x float type on real code, differential f32/f64 oracle"),
     "C13": dict(
@@ -100,7 +103,8 @@ CHECKS = {
         text="Same runs; Ord::cmp on every ordered pair of events before and after subdivision is compared with an independently "
              "written reference order (never Equal, antisymmetric), every triple of events sharing a point is checked for transitivity; "
              "compare_segments on every ordered pair of processed left events with overlapping x-extent (Equal only for identity, "
-             "antisymmetric, agreeing with the exact vertical order of separated non-crossing segments).",
+             "antisymmetric, agreeing with the exact vertical order of separated non-crossing segments), also on the input edges before "
+             "subdivision (T-junctions); the f32 event and segment orders of 4 000 near-collinear apex fans against the exact angular order.",
         ref="DESIGN.md 5 (C15)",
         technique="exhaustive pairwise/triple-wise check of the real comparison functions on all event sets of a bounded input family"),
     "C16": dict(
@@ -108,7 +112,8 @@ CHECKS = {
              "affine images (coordinates up to 2^25) and of a steep family, as same-operand and different-operand pairs, is given to the "
              "public possible_intersection on fresh events; return code, queue and links are compared with an exact integer "
              "classification (disjoint / common end point / single point with rational coordinates / collinear overlap), also with "
-             "exchanged roles; float segments of fixed-seed tables in f64 and f32: box containment and common division point.",
+             "exchanged roles, under power-of-two scalings, and in the f32 instantiation on exact lattices; float segments of fixed-seed "
+             "tables and a designed f32 'bump' family (steep x horizontal, negative and positive x): box containment and common division point.",
         ref="DESIGN.md 5 (C16)",
         technique="bounded-exhaustive enumeration of segment pairs on the real intersection step against an exact integer reference"),
     "C11": dict(
@@ -116,7 +121,8 @@ CHECKS = {
              "(no normalisation), keyed by its exact coordinate list and labelled with its model mask; from both encodings of every face "
              "set, op(X, Y) is executed for every ordered pair of known states and every operation, judged against the bitmask model and "
              "the structural oracle, and new results join the state set until a fixpoint is reached (G22, G32 quick; G23, T22, O21, O12 "
-             "thorough; G33 to depth 2) - covering chained operations of every length incl. re-used operands. Float clause: every "
+             "thorough; G33 to depth 2; quick additionally feeds every non-simple depth-1 result of G33 back in against all operands) - "
+             "covering chained operations of every length incl. re-used operands. Float clause: every "
              "triangle triple of the table with an independent third operand x 16 operation pairs x both nesting sides.",
         ref="DESIGN.md 5 (C11)",
         technique="explicit-state BFS to fixpoint over real results with canonical-state deduplication, checked against a bitmask model"),
